@@ -15,7 +15,8 @@ import (
 
 type UnitResult struct {
 	Name      string
-	Kind      string // "function" | "lemma"
+	Kind      string // "function" | "lemma" | "bounded-harness"
+	Bounded   string
 	Obligs    []*Oblig
 	Unsup     []string
 	Errs      []string
@@ -63,6 +64,19 @@ func (w *World) VerifyUnit(fn *ssa.Function, con *Contract) *UnitResult {
 	x := w.newExec(name)
 	x.unitFn = fn
 	res := &UnitResult{Name: name, Kind: "lemma", exec: x, fn: fn, con: con}
+	if con != nil && con.Harness {
+		// a harness with directives: verified like a lemma harness
+		res.Kind = "bounded-harness"
+		res.Bounded = con.Bounded
+		x.inlineNames = map[string]bool{}
+		for _, n := range con.Inlines {
+			x.inlineNames[n] = true
+		}
+		x.harnessUnroll = con.UnrollTo
+		x.unrollOverride = con.UnrollTo
+		con = nil
+		res.con = nil
+	}
 	if con != nil {
 		res.Kind = "function"
 	}
@@ -156,10 +170,13 @@ func (w *World) VerifyUnit(fn *ssa.Function, con *Contract) *UnitResult {
 	if err != nil {
 		return fail(err)
 	}
+	if con == nil && !out.pc.IsFalse() {
+		// vacuity guard for harnesses: the end of the harness must be reachable under
+		// everything assumed on the way
+		x.obligs = append(x.obligs, &Oblig{Name: name + "#reach.end", Kind: "reach", Func: name, PC: x.full(out), Goal: tb.False, NHyps: len(x.assumes), ExpectSat: true})
+	}
 	if con != nil {
 		for k, c := range clos {
-			x.skolems = nil
-			x.allSkolems = nil
 			g, err := x.callClosureBool(out, c, vals, false)
 			if err != nil {
 				return fail(err)
